@@ -50,6 +50,7 @@ type c09Behaviour struct {
 	Hist      []c09Event        `json:"hist"`
 	Cid       map[string]int    `json:"cid"`
 	Qof       map[string]string `json:"qof"`
+	Rcode     string            `json:"rcode"`
 }
 
 // Two ways of making the questions qa / qb different: by name (default), or - VERIF_C09_QMODE=type - by record type only:
@@ -202,13 +203,27 @@ type c09Result struct {
 	msg  *dnsmessage.Msg
 }
 
-func c09Answer(req c09Req, q string) []byte {
+// a response writer as a listener's is: the message is packed when WriteMsg is called. The goroutine yields first (1 us of virtual
+// time: every other runnable goroutine, in particular the other waiters of the same resolution, runs up to its own WriteMsg), which is
+// the schedule "A stamps its id, B stamps its id, A packs".
+type c09Writer struct{ c07Writer }
+
+func (w *c09Writer) WriteMsg(m *dnsmessage.Msg) error {
+	time.Sleep(time.Microsecond)
+	return w.c07Writer.WriteMsg(m)
+}
+
+func c09Answer(req c09Req, q string, rcode string) []byte {
 	r := new(dnsmessage.Msg)
 	r.Id = req.id
 	r.Response = true
 	r.RecursionAvailable = true
 	r.Question = []dnsmessage.Question{{Name: c09Name(q), Qtype: c09Type(q), Qclass: dnsmessage.ClassINET}}
-	r.Answer = []dnsmessage.RR{c09RR(q)}
+	if rcode == "nx" {
+		r.Rcode = dnsmessage.RcodeNameError
+	} else {
+		r.Answer = []dnsmessage.RR{c09RR(q)}
+	}
 	b, err := r.Pack()
 	if err != nil {
 		panic(err)
@@ -327,7 +342,7 @@ func c09RunOne(t *testing.T, b *c09Behaviour, res *verifutil.Result) {
 			q := new(dnsmessage.Msg)
 			q.SetQuestion(c09Name(b.Qof[c]), c09Type(b.Qof[c]))
 			q.Id = uint16(b.Cid[c])
-			w := &c07Writer{}
+			w := &c09Writer{}
 			req := &udpRequest{realSrc: netip.MustParseAddrPort("192.0.2.10:41000"), realDst: netip.MustParseAddrPort("192.0.2.1:53"), routingResult: &bpfRoutingResult{}}
 			r := &c09Result{}
 			rmu.Lock()
@@ -353,7 +368,7 @@ func c09RunOne(t *testing.T, b *c09Behaviour, res *verifutil.Result) {
 			rq := srv.reqs[ev.E.K-1]
 			srv.mu.Unlock()
 			trail = append(trail, fmt.Sprintf("server answers request %d (%s id=%d) with an answer for %s", ev.E.K, strings.TrimSuffix(rq.q, ".test."), rq.id, ev.E.Q))
-			data := c09Answer(rq, ev.E.Q)
+			data := c09Answer(rq, ev.E.Q, b.Rcode)
 			if rq.udp != nil {
 				select {
 				case <-rq.udp.closed:
@@ -388,6 +403,8 @@ func c09RunOne(t *testing.T, b *c09Behaviour, res *verifutil.Result) {
 			}
 		}
 		synctest.Wait()
+		time.Sleep(5 * time.Microsecond) // the response writers' yield (c09Writer) has to elapse
+		synctest.Wait()
 
 		// ---- observations
 		rmu.Lock()
@@ -410,6 +427,9 @@ func c09RunOne(t *testing.T, b *c09Behaviour, res *verifutil.Result) {
 					if !strings.EqualFold(rr.Header().Name, c09Name(b.Qof[c])) || rr.Header().Rrtype != c09Type(b.Qof[c]) {
 						oka = false
 					}
+				}
+				if b.Rcode == "nx" && m.Rcode != dnsmessage.RcodeNameError {
+					oka = false
 				}
 				if int(m.Id) != b.Cid[c] || !okq || !oka || !m.Response {
 					rmu.Unlock()
